@@ -161,6 +161,39 @@ func aggregateXML(ents []aggEnt, nested []aggEnt) string {
 	return sb.String()
 }
 
+const artifactBinding = "urn:oasis:names:tc:SAML:2.0:bindings:HTTP-Artifact"
+
+// spMetadataShapeXML: the same SP (entity ID, HTTP-POST ACS locations in document order) with the POST
+// endpoints at other positions: behind Artifact-binding endpoints, or in a second SPSSODescriptor.
+func spMetadataShapeXML(entityID string, acs []string, shape int) string {
+	if shape == 0 {
+		return spMetadataXML(entityID, acs)
+	}
+	ep := func(binding, loc string, idx int) string {
+		return fmt.Sprintf(`<AssertionConsumerService Binding="%s" Location="%s" index="%d"></AssertionConsumerService>`, binding, html.EscapeString(loc), idx)
+	}
+	art := func(i int) string {
+		return ep(artifactBinding, fmt.Sprintf("https://artifact.example.net/acs%d", i), 20+i)
+	}
+	var posts strings.Builder
+	for i, a := range acs {
+		posts.WriteString(ep(postBinding, a, i+1))
+	}
+	open, closeD := `<SPSSODescriptor protocolSupportEnumeration="urn:oasis:names:tc:SAML:2.0:protocol">`, `</SPSSODescriptor>`
+	var body string
+	switch shape {
+	case 1:
+		body = open + art(1) + posts.String() + closeD
+	case 2:
+		body = open + art(1) + art(2) + posts.String() + art(3) + closeD
+	case 3:
+		body = open + art(1) + closeD + open + posts.String() + closeD
+	default:
+		body = open + closeD + open + art(1) + posts.String() + closeD
+	}
+	return `<EntityDescriptor xmlns="urn:oasis:names:tc:SAML:2.0:metadata" entityID="` + html.EscapeString(entityID) + `">` + body + `</EntityDescriptor>`
+}
+
 // authnRequestB64 is the POST-binding form value of an AuthnRequest.
 func authnRequestB64(issuer, acsURL, id string, now time.Time) string {
 	x := `<samlp:AuthnRequest xmlns:samlp="urn:oasis:names:tc:SAML:2.0:protocol" xmlns:saml="urn:oasis:names:tc:SAML:2.0:assertion"` +
